@@ -115,6 +115,17 @@ impl Prop for C12 {
                             break;
                         }
                     }
+                    // a conforming literal keeps its value wherever it ended up: some literal of the output
+                    // must have exactly its value lines
+                    if cfg.format_multiline_strings {
+                        let out_values: Vec<Vec<String>> = crate::refscan::scan(&output).iter().filter(|t| t.kind == crate::refscan::RK::MlStr).filter_map(|t| wf::mlstr_value(t.text(&output))).collect();
+                        for lit in lits.iter().filter(|l| l.conforming) {
+                            if !out_values.iter().any(|v| *v == lit.value_lines) {
+                                out.violate("C12", "literal-value-changed", format!("[{}] carrier {ci}, literal shape [{}]: no literal of the output has the value lines {:?}", cfg.short(), lit.shape, lit.value_lines), &input, Some(&cfg));
+                                break;
+                            }
+                        }
+                    }
                 }
                 continue;
             }
